@@ -67,6 +67,9 @@ def sites_c04(inf, levels=None, coords=False):
             out.append({"op": "cellh_nonascii", "lv": lv, "box": bi, "line": "idx"})
             out.append({"op": "cellh_nonascii", "lv": lv, "box": bi, "line": "fod"})
             out.append({"op": "idxline_garble", "lv": lv, "box": bi})
+            # an entry with the wrong number of groups whose low and high corners are intact
+            out.append({"op": "idx_groups", "lv": lv, "box": bi, "how": "drop_type"})
+            out.append({"op": "idx_groups", "lv": lv, "box": bi, "how": "stray_token"})
             out.append({"op": "fod_delete", "lv": lv, "box": bi})
             for how in ("garble", "nofile", "otherfile", "beyond", "payload", "negative", "otherbox", "empty"):
                 out.append({"op": "fod", "lv": lv, "box": bi, "how": how})
@@ -276,6 +279,11 @@ def apply(path, inf, mut):
         C[ln] = C[ln][:k] + b"\xff" + C[ln][k:]
     elif op == "idxline_garble":
         C[il] = re.sub(rb"\d", b"x", C[il], count=1)
+    elif op == "idx_groups":
+        if mut["how"] == "drop_type":
+            C[il] = re.sub(rb"\s*\([\d,]+\)\)\s*$", b"", C[il])          # ((lo) (hi) (type)) -> ((lo) (hi)
+        else:
+            C[il] = C[il].rstrip() + b" " + b",".join(str(v).encode() for v in b["hi"]) + b")"
     elif op == "idx_text":
         how = mut["how"]
         if how == "dblblank":
